@@ -7,6 +7,7 @@ from common import ROOT, SG, VMON, new_report, add_violation, count
 CPU_LIMIT = 10
 SRC = {
     'a.js': 'foo(abc, 12);\nlet x = [1, 2, 3];\nfunction f(a) { return a + 1 }\n',
+    'a3.js': 'const s = css`a { color: red }`;\nconst t = styled`b { margin: 0 }`;\n',
     'a2.js': "foo(cafÉ, aÉÈ_b);\r\nlet ÀÉcole = [naïveCafÉ, 'ÀÉ', `t${x}É`];\r\n\tfoo(ÉÉa, 1)\n",
     'b.py': 'def f(a):\n    return foo(a, 12)\n',
     'c.rs': 'fn m() { foo(abc, 12); }\n',
@@ -128,6 +129,10 @@ def cases(seed, a, b):
 WILD = ['', '~', '[]', '{}', '1', 'nope', '../..', '/dev/null', 'é', '- a', 'a: b', '"', '***']
 
 
+INJ_WILD = ['[{hostLanguage: js, rule: {pattern: "css`$CONTENT`"}, injected: css}, {hostLanguage: js, rule: {pattern: "$TAG`$CONTENT`"}, injected: css}]',
+            '[{hostLanguage: js, rule: {pattern: "$TAG`$CONTENT`"}, injected: css}, {hostLanguage: js, rule: {pattern: "$TAG`$CONTENT`"}, injected: css}]',
+            '[{hostLanguage: js, rule: {pattern: "css`$CONTENT`"}, injected: nope}]', '[{hostLanguage: js, rule: {pattern: "css`$X`"}, injected: css}]',
+            '[{hostLanguage: js, rule: {kind: template_string, pattern: $CONTENT}, injected: [css, js]}]']
 LIST_WILD = ['[]', '[]', '[[]]', "['']", '[~]', '[1]', '[nope, rules]', '[rules, rules]', "['../..']", '[{}]', '[{testDir: nope}]', '[{testDir: tests, snapshotDir: ""}]']
 
 
@@ -160,7 +165,7 @@ def project_variants(rng):
         lines = []
         for k, g in good.items():
             if k == victim:
-                pool = LIST_WILD if k.endswith(("Dirs", "Configs", "Injections")) else GLOB_WILD if k == 'languageGlobs' else WILD
+                pool = INJ_WILD + LIST_WILD[:4] if k == 'languageInjections' else LIST_WILD if k.endswith(("Dirs", "Configs")) else GLOB_WILD if k == 'languageGlobs' else WILD
                 lines.append(f'{k}: {rng.choice(pool)}')
             elif k in ('ruleDirs', 'testConfigs') or rng.random() < 0.5:
                 lines.append(f'{k}: {g}')
